@@ -5,3 +5,4 @@ import ZixModel.Properties.C16
 import ZixModel.Properties.C17
 import ZixModel.Properties.C13
 import ZixModel.Properties.C03
+import ZixModel.Properties.C06
